@@ -39,10 +39,24 @@ def one(t):
     pid, k, files, cfg, seed, extra = t
     tree = gg.Tree(files, seed, mounts=bool(cfg.get("mounts")))
     try:
+        link_target = None
+        if cfg.get("link_root"):
+            # an input root that is itself a symbolic link to a regular file (with -S the link is the scanned path, a root of its own)
+            cand = [f for f in files if f["hardlink_of"] is None and f["symlink_to"] is None]
+            link_target = tree.path[cand[cfg["link_root"] % len(cand)]["id"]]
+            lroots = ["LF", "LF2"] if cfg["link_root"] % 2 else ["LF"]        # two link roots to one file: two roots, two replicas
+            for lr in lroots:
+                os.symlink(os.path.relpath(link_target, tree.base), os.path.join(tree.base, lr))
+            cfg = dict(cfg, roots=gg.ROOTS + lroots)
         staged = pid in ("C01", "C03", "C06") and not cfg.get("transform") and not cfg.get("roots")
         trace = os.path.join(tree.work, "stages.ndjson") if staged else None
         env = tree.env(disk_kind=cfg.get("disk_kind"), trace=trace)
         args = gg.group_args(cfg, "json")
+        if cfg.get("cache") and k % 2 == 0:
+            # warm cache: the judged run is the second one over the same tree
+            e0 = dict(env)
+            e0.pop("FCLONES_VERIF_TRACE", None)
+            lib.run_fclones(args, tree.base, e0, timeout=120)
         r = lib.run_fclones(args, tree.base, env, timeout=120)
         env.pop("FCLONES_VERIF_TRACE", None)
         facts = {"k": k, "cfg": cfg, "args": args, "rc": r.rc, "panicked": r.panicked, "timeout": r.timed_out, "stderr": r.err.decode("utf-8", "replace")[-600:]}
@@ -50,6 +64,10 @@ def one(t):
             return None, facts
         hdr, groups, rawhdr = gg.parse_json(r.out)
         recs = gg.oracle(tree, cfg)
+        if link_target:
+            tr = next(x for x in recs if x["p"] == lib.printable(os.path.relpath(link_target, tree.base)))
+            for n_, lr in enumerate(cfg["roots"][len(gg.ROOTS):]):
+                recs.append({"p": lr, "cls": tr["cls"], "len": tr["len"], "ino": tr["ino"], "root": len(gg.ROOTS) + 1 + n_})
         run = gg.observed_run(k, tree, cfg, recs, hdr, groups)
         facts["nfiles"] = len(recs)
         if staged:
@@ -94,7 +112,7 @@ def one(t):
                         os.symlink("b", lb)
                     xargs = ["--base-dir", lb if how == "basedir-symlink" else os.path.join(tree.base, "R1", "..")]
                 else:
-                    c2["roots"] = [spell(tree, r_, how) for r_ in gg.ROOTS]
+                    c2["roots"] = [spell(tree, r_, how) for r_ in cfg.get("roots", gg.ROOTS)]
                 rr = lib.run_fclones(gg.group_args(c2, "json") + xargs, tree.work if xargs else tree.base, env, timeout=120)
                 if rr.rc != 0:
                     variants[how] = "exit %d" % rr.rc
@@ -116,12 +134,13 @@ def main(pid, tier):
     if pid in ("C01", "C03", "C06"):
         # the design: every input of a small universe (byte strings, link structure, filters, unreadable identity) and every
         # order of the hashing tasks of the staged pipeline keeps Sound / Complete / NeverSplit / FilterHonoured (Grouping.tla)
-        res = lib.run_tlc("MC_Grouping.tla", "MC_Grouping_thorough.cfg" if thorough else "MC_Grouping_quick.cfg", workers=12 if thorough else 8,
-                          timeout=6000, coverage=not thorough, xmx="24g" if thorough else "8g")
-        chk.add_tlc("MC_Grouping(staged pipeline, all inputs of the small universe x all task orders)", res)
-        if res.violation:
-            chk.violation(f"{pid}/model {res.violation}", "Grouping.tla (the staged pipeline as specified) violates " + res.violation, {"tlc": res.output[-3000:]})
-            return chk.finish()
+        cfgs = ["quick", "iso", "thorough"] if thorough else (["quick", "isoq"] if pid == "C06" else ["quick"])
+        for c in cfgs:
+            res = lib.run_tlc("MC_Grouping.tla", f"MC_Grouping_{c}.cfg", workers=12 if thorough else 8, timeout=7200, coverage=(c == "quick"), xmx="24g")
+            chk.add_tlc(f"MC_Grouping_{c}(staged pipeline, all inputs of the small universe x all task orders)", res)
+            if res.violation:
+                chk.violation(f"{pid}/model {res.violation}", "Grouping.tla (the staged pipeline as specified) violates " + res.violation, {"tlc": res.output[-3000:]})
+                return chk.finish()
     lib.build_all()
     rng = random.Random(chk.seed * 7 + int(pid[1:]))
     n = {"C01": 700, "C03": 700, "C06": 300, "C14": 250}[pid] * (5 if thorough else 1)
@@ -139,6 +158,13 @@ def main(pid, tier):
                 for key in ("unique", "rf_under"):
                     cfg.pop(key, None)
                 cfg["rf_over"] = rng.choice([0, 1, 2, 2, 3])
+        if pid == "C06" and k % 6 == 0:
+            # identities interleaved on arrival: many threads, hard links next to copies, counts that matter (2 replicas listed as 3-4 paths)
+            files = gg.linky_tree(rng)
+            cfg.update({"symlinks": False, "isolate": False, "matchLinks": False, "threads": [rng.choice(["default:16,16", "16", "ssd:8,8"])], "_kind": "ssd"})
+            for key in ("unique", "rf_under", "rf_over", "max_prefix", "max_suffix"):
+                cfg.pop(key, None)
+            cfg[rng.choice(["rf_under", "rf_over"])] = rng.choice([2, 3])
         if pid in ("C03", "C06") and k % 10 == 0:
             cfg["mounts"] = True
         if pid in ("C03", "C06") and not cfg.get("transform") and rng.random() < 0.15:
@@ -153,8 +179,11 @@ def main(pid, tier):
             cfg["roots"] = rng.choice([["R1", "R1", "R2", "O"], ["R1", "R1/s", "R2", "O"], ["R1", "R2", "O", "R2/s/t"], [".", "R1"], ["R2", "R1", "O"]])
             cfg["isolate"] = False
         if pid == "C06":
-            cfg["disk_kind"] = None
+            cfg["disk_kind"] = cfg.pop("_kind", None)
             extra = rng.sample(SPELLINGS[1:], 2)
+            if cfg["symlinks"] and cfg["isolate"] and not cfg.get("mounts") and rng.random() < 0.5:
+                cfg["link_root"] = rng.randint(1, 1000)
+                extra = ["dot", "absolute"]
         cases.append((pid, k, files, cfg, rng.randint(0, 1 << 30), extra))
     results = lib.pmap(one, cases, workers=12)
     runs = [r for r, f in results if r]
